@@ -828,7 +828,7 @@ impl<const N: u32> PxE2<{ N }> {
         let mut ui_a = p_a.to_bits();
 
         if p_a.is_nar() || p_a.is_zero() {
-            Self::from_bits(ui_a);
+            return Self::from_bits(ui_a);
         }
 
         let sign = P32E2::sign_ui(ui_a);
@@ -866,7 +866,7 @@ impl<const N: u32> PxE2<{ N }> {
         let mut ui_a = p_a.to_bits();
 
         if p_a.is_nar() || p_a.is_zero() {
-            Self::from_bits((ui_a as u32) << 16);
+            return Self::from_bits((ui_a as u32) << 16);
         }
 
         let sign = P16E1::sign_ui(ui_a);
@@ -936,7 +936,7 @@ impl<const N: u32> PxE2<{ N }> {
         let mut ui_a = p_a.to_bits();
 
         if p_a.is_nar() || p_a.is_zero() {
-            Self::from_bits((ui_a as u32) << 16);
+            return Self::from_bits((ui_a as u32) << 24);
         }
 
         let sign = P8E0::sign_ui(ui_a);
